@@ -9,8 +9,16 @@
 /* the option table: num_opts entries (any 16-bit count) in one object of exactly that size.
  * (SPIFOPT_OPTLIST_GET_OPT(n) silently reads entry 0 for n >= num_opts; a table with 0 entries
  * is therefore only legal as long as nobody asks for an entry.) */
-#define OPTTAB_INV    (__CPROVER_is_fresh(OPT_TAB, (size_t) spifopt_settings.num_opts * sizeof(spifopt_t)))
+#define OPTTAB_INV    (__CPROVER_rw_ok(OPT_TAB, (size_t) spifopt_settings.num_opts * sizeof(spifopt_t)))
 #define OPTTAB_NONEMPTY (spifopt_settings.num_opts >= 1)
+/* harness side: allocate the table (arbitrary contents).  State is BUILT by the harness with
+ * assignments and re-stated in `requires` with rw_ok/r_ok: cbmc dereferences through points-to
+ * sets, so pointers that the proof reads through ghosts must have been assigned, not assumed. */
+#define VOPT_MK_TABLE()  (OPT_TAB = malloc((size_t) spifopt_settings.num_opts * sizeof(spifopt_t)))
+/* a C string of exactly n characters, arbitrary contents (exactness is instantiated by the
+ * harness at the positions the unit needs) */
+#define VOPT_MK_STR(p, n) do { (p) = malloc((n) + 1); ((char *) (p))[(n)] = 0; } while (0)
+#define VOPT_STR_OK(p, n) ((n) <= VCAP && __CPROVER_r_ok((p), (n) + 1) && ((const char *) (p))[(n)] == 0)
 
 /* the client installed a help handler that returns (vopt_help); the bad-option counter has
  * room (it is 8 bits wide; the unit `check_bad_wrap` covers bad_opts == 255). */
@@ -19,8 +27,8 @@
 
 /* what one CHECK_BAD() does: exactly one more bad option; help handler iff limit exceeded */
 #define OPT_ONE_BAD(old_bad, old_help) \
-    (spifopt_settings.bad_opts == (spif_uint8_t) ((old_bad) + 1) && \
-     vg_help_calls == (old_help) + (((old_bad) + 1) > spifopt_settings.allow_bad ? 1UL : 0UL))
+    ((long) spifopt_settings.bad_opts == (long) (old_bad) + 1 && \
+     vg_help_calls == (old_help) + (((long) (old_bad) + 1) > (long) spifopt_settings.allow_bad ? 1UL : 0UL))
 #define OPT_NO_BAD(old_bad, old_help) \
     (spifopt_settings.bad_opts == (old_bad) && vg_help_calls == (old_help))
 
